@@ -68,6 +68,37 @@ def check(run, prog, tier):
     run.rule("C06-R10", "the Matsubara series of the Brownian-oscillator correlation function is summed completely (a skipped term "
                         "is skipped by a two-sided resonance test only)", minimum=1)
     rule_R10(run, prog)
+    run.rule("C06-R11", "in the builders of the rate matrices and tensors every sum over sites runs over the site index of the "
+                        "eigenvector matrix (eigh: rows count site-basis states, columns eigenstates): index variables, products and "
+                        "transposes keep one role per axis (axis-role typing, qv/roles.py)", minimum=6)
+    rule_R11(run, prog)
+
+
+def rule_R11(run, prog):
+    """'... detailed balance of the Foerster rates in the combined tensor': the reorganisation energy and line-shape function
+    of eigenstate a are sums over sites n of |SS[n, a]|^4 times the site quantity.  All functions of the Liouville-space
+    package that diagonalise with numpy.linalg.eigh are typed."""
+    from .. import roles
+    rid = "C06-R11"
+    total = 0
+    for f in list(prog.all_functions()):
+        if not f.module.name.startswith("quantarhei.qm.liouvillespace") or not isinstance(f.node, ast.FunctionDef):
+            continue
+        r = roles.analyse(f.node)
+        if not r.env:
+            continue
+        prog.consulted.add(f.relpath)
+        total += r.checked
+        seen = set()
+        finds = [(n_, m_) for n_, m_ in r.findings if not (m_ in seen or seen.add(m_))]
+        run.obligation(rid, f.short, not finds, key="roles",
+                       message="%s: %s - the sum mixes the two bases (for a dimer |SS|^4 is symmetric and nothing shows; with three "
+                               "or more molecules the eigenstate gets the quantity of the wrong combination of sites)"
+                               % (f.short, finds[0][1] if finds else ""), loc=f.loc(finds[0][0] if finds else f.node),
+                       sample={"typed_arrays": {k: list(v) for k, v in sorted(r.env.items())}, "checked": r.checked})
+    run.count(rid, total) if hasattr(run, "count") else None
+    if total < 30:
+        raise AnalysisError("C06-R11: only %d subscripts and contractions with known axis roles (37 confirmed)" % total)
 
 
 def rule_R10(run, prog):
